@@ -465,6 +465,16 @@ func (s *snap) base(k KeySel) []byte {
 
 // resolve turns a selector into a concrete trie key (always at least 4 bytes: every production caller prepends the id).
 func (s *snap) resolve(k KeySel) []byte {
+	// Queries stay inside the key space of the trie (4-byte id + at most 64 bytes): longer paths are refused by
+	// the API as invalid input, which is not what this check is about.
+	if b := s.resolve0(k); len(b) <= mpt.MaxKeyLength {
+		return b
+	} else {
+		return b[:mpt.MaxKeyLength]
+	}
+}
+
+func (s *snap) resolve0(k KeySel) []byte {
 	b := bytes.Clone(s.base(k))
 	raw := func() []byte { return trieKey(int32(mod(k.ID, 4)+1), k.Raw) }
 	switch k.Mut {
@@ -1223,6 +1233,9 @@ func (e *env) stateReads(n *ck.Node, sn *snap, where string, latestOnly bool) er
 			}
 		default:
 			start = append([]byte{}, f.StartRaw...)
+		}
+		if len(prefix)+len(start) > mpt.MaxKeyLength {
+			start = start[:mpt.MaxKeyLength-len(prefix)] // a longer start is refused as invalid input
 		}
 		want := findExpect(sn, prefix, start, f.Max)
 		kvs, err := sm.FindStates(root, prefix, start, f.Max)
